@@ -194,7 +194,25 @@ class Aliases(object):
 
 def aliases_of(fi):
     if fi._aliases is None:
-        fi._aliases = Aliases(fi.node)
+        al = Aliases(fi.node)
+        fi._aliases = al
+        al.stale = {}
+        al.stale_map = {}
+        al.stale_single = {}
+        # a local that may be read after the expression it was bound to changed its value is not an alias of that expression (stale.py)
+        import os
+        if os.environ.get('SA_NO_STALE') != '1':
+            from . import stale
+            try:
+                al.stale = stale.stale_locals(fi, al)
+            except RecursionError:
+                al.stale = {}
+            # (kept aside for the rules that reason about the value AT THE BINDING and check the order of events themselves: stale_ok=True)
+            al.stale_map = dict((x, al.map[x]) for x in al.stale if x in al.map)
+            al.stale_single = dict((x, al.single_assign[x]) for x in al.stale if x in al.single_assign)
+            for x in al.stale:
+                al.map.pop(x, None)
+                al.single_assign.pop(x, None)
     return fi._aliases
 
 
